@@ -52,6 +52,8 @@ struct Dim {
   bool cv_bounds = true;   // the variable itself carries lowerBoundary/upperBoundary
   Q vlb = 0, vub = 0, vw = 0;  // boundaries and width given in the variable
   bool cv_lower_given = true;  // (kind 2: the lower boundary 0 is automatic when not given)
+  int change = -1;             // -1: the grid along this dimension is the variable's own; otherwise what the custom block
+                               // changes: 0 boundaries and width, 1 upper boundary only, 2 width only, 3 lower boundary only
   // effective grid of the histogram along this dimension
   Q lb = 0, w = 0;
   int n = 0;
@@ -120,6 +122,22 @@ static Dim from_block(int kind, Q P, Q c, Q lb, Q w, int n, bool cv_has_bounds)
   d.vlb = lb - QC(1.0); d.vw = w * 2; d.vub = d.vlb + 3 * d.vw;  // deliberately different from the block
   if (kind == 2 && d.vlb < 0) { d.vlb = 0; d.vub = 3 * d.vw; }
   d.lb = lb; d.w = w; d.n = n;
+  d.change = 0;
+  return d;
+}
+// the custom block changes exactly one aspect of the variable's own grid along this dimension
+static Dim from_block_change(int kind, Q P, Q c, Q lb, Q w, int n, int change)
+{
+  if (change == 0) return from_block(kind, P, c, lb, w, n, true);
+  Dim d;
+  d.kind = kind; d.P = P; d.c = c;
+  d.cv_bounds = true;
+  d.lb = lb; d.w = w; d.n = n;
+  d.vlb = lb; d.vw = w; d.vub = lb + n * w;
+  if (change == 1) d.vub = lb + (n + 2) * w;             // the variable's grid has two more bins at the top
+  else if (change == 2) d.vw = (n > 1) ? n * w : w / 2;   // same interval, other width (1 bin, or 2 bins when n == 1)
+  else d.vlb = lb - w;                                    // the variable's grid has one more bin at the bottom
+  d.change = change;
   return d;
 }
 
@@ -184,7 +202,8 @@ static std::string spec_json(HistSpec const &h)
   for (size_t i = 0; i < h.d.size(); i++) {
     Dim const &d = h.d[i];
     s += std::string(i ? "," : "") + "{\"kind\":" + std::to_string(d.kind) + ",\"period\":" + qs(d.P) + ",\"wrapAround\":" + qs(d.c) +
-         ",\"lower\":" + qs(d.lb) + ",\"width\":" + qs(d.w) + ",\"n\":" + std::to_string(d.n) + "}";
+         ",\"lower\":" + qs(d.lb) + ",\"width\":" + qs(d.w) + ",\"n\":" + std::to_string(d.n) +
+         ",\"block_changes\":" + std::to_string(d.change) + "}";
   }
   return s + "]}";
 }
@@ -193,8 +212,16 @@ static std::string sig_prefix(HistSpec const &h)
 {
   bool per = false;
   for (auto &d : h.d) per = per || d.kind == 1;
+  // which variables the custom block really changes: all of them (historic name, no suffix), only non-last ones, or
+  // another proper subset
+  std::string sub;
+  if (h.block) {
+    size_t nch = 0;
+    for (auto &d : h.d) if (d.change >= 0) nch++;
+    if (nch < h.d.size()) sub = (h.d.back().change < 0) ? "/changes-non-last-variables-only" : "/changes-a-subset-of-variables";
+  }
   return "C15:hist:" + std::to_string(h.d.size()) + "d:" + (per ? "periodic" : "non-periodic") + ":" +
-         (h.block == 0 ? "grid-from-variables" : (h.block == 1 ? "grid-block" : "histogramGrid-block"));
+         (h.block == 0 ? "grid-from-variables" : (h.block == 1 ? "grid-block" : "histogramGrid-block")) + sub;
 }
 
 // ---------------- one running module with its reference ----------------
@@ -647,18 +674,41 @@ static std::vector<HistSpec> multi_d_specs(int nd, bool thorough)
   std::vector<DimDef> menu = dim_menu(thorough);
   long total = 1;
   for (int i = 0; i < nd; i++) total *= (long) menu.size();
+  int const full = (1 << nd) - 1;
   for (long code = 0; code < total; code++) {
-    for (int block = 0; block < 3; block++) {
-      if (nd == 3 && block == 2 && !thorough) continue;
-      HistSpec h; h.block = block; h.szd = (nd == 2) && ((code + block) % 2 == 1);
-      long cc = code;
-      for (int i = 0; i < nd; i++) {
-        DimDef const &m = menu[cc % menu.size()]; cc /= menu.size();
-        h.d.push_back(block ? from_block(m.kind, QC(m.P), QC(m.c), QC(m.lb), QC(m.w), m.n, (i % 2) == 0)
-                            : from_cv(m.kind, QC(m.P), QC(m.c), QC(m.lb), QC(m.w), m.n));
-      }
+    std::vector<DimDef> ms;
+    bool first_three = true;   // all dimensions from the first three menu entries
+    { long cc = code; for (int i = 0; i < nd; i++) { size_t k = cc % menu.size(); cc /= menu.size(); ms.push_back(menu[k]); if (k >= 3) first_three = false; } }
+    // grid from the variables themselves
+    {
+      HistSpec h; h.block = 0; h.szd = (nd == 2) && (code % 2 == 1);
+      for (int i = 0; i < nd; i++) h.d.push_back(from_cv(ms[i].kind, QC(ms[i].P), QC(ms[i].c), QC(ms[i].lb), QC(ms[i].w), ms[i].n));
       v.push_back(h);
     }
+    // custom block: EVERY non-empty subset of the dimensions is changed by the block (the others keep the variable's own
+    // lowerBoundary/upperBoundary/width, repeated verbatim in the block), for both block keywords
+    for (int block = 1; block <= 2; block++)
+      for (int mask = 1; mask <= full; mask++) {
+        // what is changed: boundaries and width / upper boundary only / width only / lower boundary only.
+        // 2-D: all four; 3-D: one of the four, rotating with the definition and the subset
+        std::vector<int> changes;
+        if (nd == 2) changes = {0, 1, 2, 3};
+        else changes = {mask == full ? 0 : int((code + mask + block) % 4)};
+        // quick tier, 3-D: proper subsets only over the first three menu entries; histogramGrid with all variables changed left to thorough
+        if (!thorough && nd == 3 && mask != full && !first_three) continue;
+        if (!thorough && nd == 3 && mask == full && block == 2) continue;
+        for (int ch : changes) {
+          HistSpec h; h.block = block; h.szd = (nd == 2) && ((code + block + mask) % 2 == 1);
+          for (int i = 0; i < nd; i++) {
+            DimDef const &m = ms[i];
+            if (mask & (1 << i)) {
+              if (mask == full && ch == 0) h.d.push_back(from_block(m.kind, QC(m.P), QC(m.c), QC(m.lb), QC(m.w), m.n, (i % 2) == 0));
+              else h.d.push_back(from_block_change(m.kind, QC(m.P), QC(m.c), QC(m.lb), QC(m.w), m.n, ch));
+            } else h.d.push_back(from_cv(m.kind, QC(m.P), QC(m.c), QC(m.lb), QC(m.w), m.n));
+          }
+          v.push_back(h);
+        }
+      }
   }
   return v;
 }
